@@ -21,7 +21,8 @@ print(' '.join(seen))")
   for Q in $checks; do
     (cd /verif && VERIF_SEED=${VERIF_SEED:-1} ./check $Q quick) > $TMP 2>&1; rc=$?
     sigs=$(grep -E "signature:" $TMP | sed 's/.*signature: //' | sort -u | head -4 | tr '\n' ';')
-    echo -e "$name\t$Q\trc=$rc\t$sigs" >> $OUT
+    hits=$(grep -oE "\[[0-9]+ violating observations" $TMP | grep -oE "[0-9]+" | head -1)
+    echo -e "$name\t$Q\trc=$rc\t$sigs\thits=${hits:-?}" >> $OUT
   done
   cd /repo; git checkout -q -- .
 done
